@@ -61,9 +61,38 @@ class GenCfg:
     hex_enum: float = 0.2
     comments: float = 0.3
     digit_names: float = 0.0  # probability that a type name ends in a digit
+    digit_fields: float = 0.0  # probability that a field name carries a digit component (rate_2, ch_0_raw)
     keyword_field: float = 0.0  # probability that a message gets a field named `type` (allowed by the grammar)
     module_options: float = 0.0  # probability of py.module_name / go.package_path options (set to the default values)
+    p_import_chain: float = 0.0  # probability that an imported file itself imports an earlier imported file
+    p_transitive_ref: float = 0.0  # with a chain: probability that the main file reaches the inner file only through the outer one (`b.c.M`)
+    p_shared_as_name: float = 0.0  # probability that an import reuses the name an imported file binds to a DIFFERENT file (names are per file)
     std_signed_only: bool = False  # signed ints only of width 8/16/32/64 (big-endian emulation limit, see DESIGN C06)
+
+
+HOSTILE_COMMENTS = [
+    "the drive is C:\\",
+    "say \"\"\"hi\"\"\" twice \"\"\"",
+    "regex \\d+ and \\N{DASH} and \\x",
+    "*/ not the end /*",
+    "ends with two \\\\",
+    "{curly} %d %s `tick`",
+    "tab\there",
+    "unicode \u00e9\u4e2d",
+    "#define NOT_A_MACRO 1",
+    "\"\"\"",
+    "\x27\x27\x27",
+    "??/ trigraph",
+    "really??/",
+    "ends with a quote \"",
+    "\\",
+    "<!-- html -->",
+]
+
+
+def hostile_comment(rng: random.Random, plain: str) -> str:
+    """Doc comments are copied into C/Go/Python comments and docstrings: a third of them carry text that is special there."""
+    return rng.choice(HOSTILE_COMMENTS) if rng.random() < 0.35 else plain
 
 
 def pick_width(rng: random.Random) -> int:
@@ -89,7 +118,7 @@ class SchemaGen:
     def __init__(self, rng: random.Random, cfg: Optional[GenCfg] = None):
         self.rng = rng
         self.cfg = cfg or GenCfg()
-        self.pool = NamePool(rng, digits=self.cfg.digit_names)
+        self.pool = NamePool(rng, digits=self.cfg.digit_names, digit_fields=self.cfg.digit_fields)
         self.enum_member_tags: set = set()
 
     # -- enums -------------------------------------------------------------
@@ -111,7 +140,7 @@ class SchemaGen:
             members.append((f"{tag}_{self.pool.upper()}", v))
         e = Enum(name, width, members, parent=parent, hex_members=rng.random() < self.cfg.hex_enum)
         if rng.random() < self.cfg.comments:
-            e.comment = f"enum {name}"
+            e.comment = hostile_comment(rng, f"enum {name}")
         return e
 
     # -- types -------------------------------------------------------------
@@ -174,7 +203,7 @@ class SchemaGen:
         rng, cfg = self.rng, self.cfg
         m = Message(self.pool.pascal(), ext=cfg.extensible and rng.random() < cfg.p_ext_msg, parent=parent)
         if rng.random() < cfg.comments:
-            m.comment = f"message {m.name}"
+            m.comment = hostile_comment(rng, f"message {m.name}")
         if rng.random() < cfg.p_empty_msg:
             return m
         budget = cfg.msg_bits - (16 if m.ext else 0)
@@ -213,7 +242,7 @@ class SchemaGen:
                 used_fields.add("type")
             fl = Field(fname, t, numbers[k], parent=m)
             if rng.random() < cfg.comments / 2:
-                fl.comment = "field note"
+                fl.comment = hostile_comment(rng, "field note")
             m.items.append(fl)
         if rng.random() < cfg.p_options and ref.nbits(m) > 0:
             nby = ref.nbytes(m)
@@ -229,12 +258,26 @@ class SchemaGen:
         if rng.random() < cfg.basename_differs:
             f.basename = self.pool.proto() + "_file"
         if rng.random() < cfg.comments:
-            f.comment = f"Proto {pname}."
+            f.comment = hostile_comment(rng, f"Proto {pname}.")
         avail: List[Any] = []
         consts: List[Const] = []
+        reach = list(imports)
+        if cfg.p_transitive_ref:
+            # definitions of files reachable only through an imported file's own imports are written `b.c.M`
+            for g in imports:
+                reach.extend(h for h in g.all_files() if h not in reach)
+        inner_names = {imp.bound_name: imp.file for g in imports for h in g.all_files() for imp in h.imports}
+        bound: set = set()
         for g in imports:
             as_name = self.pool.proto() if rng.random() < cfg.p_as_name else None
+            reusable = [n for n, h in inner_names.items() if h is not g and n not in bound]
+            if reusable and rng.random() < cfg.p_shared_as_name:
+                as_name = rng.choice(reusable)
+            if (as_name or g.proto_name) in bound:
+                as_name = self.pool.proto()
             f.add(Import(g, as_name))
+            bound.add(as_name or g.proto_name)
+        for g in reach:
             for d in iter_defs(g):
                 if isinstance(d, (Enum, Message, Alias)):
                     avail.append(d)
@@ -290,9 +333,16 @@ class SchemaGen:
     def gen_schema(self) -> File:
         rng, cfg = self.rng, self.cfg
         n_imp = rng.randint(*cfg.n_imports)
-        imported = [self.gen_file([], False) for _ in range(n_imp)]
-        # occasionally a chain: second imported file imports the first
-        return self.gen_file(imported, True)
+        imported: List[File] = []
+        inner: List[File] = []
+        for _ in range(n_imp):
+            deps: List[File] = []
+            if imported and rng.random() < cfg.p_import_chain:
+                deps = [rng.choice(imported)]  # a chain: this imported file imports an earlier one
+                inner.extend(deps)
+            imported.append(self.gen_file(deps, False))
+        direct = [g for g in imported if g not in inner or rng.random() >= cfg.p_transitive_ref]
+        return self.gen_file(direct, True)
 
 
 def flat_name(d: Any) -> str:
